@@ -223,4 +223,18 @@ Section Model.
     end.
 
   Definition run (s : st) (ops : list op) : st := fold_left step ops s.
+
+  (* Several pickers from one picker builder.  p2cPickerBuilder has no fields and Build (p2c.go:46-66) allocates a
+     new conns slice and a new p2cPicker on every call: the builder is stateless, a picker owns its connections.
+     A world is the list of pickers built so far (None = error picker); WOn p o runs o on picker p. *)
+  Inductive wop := WBuild (start : Z) (order : list nat) | WOn (p : nat) (o : op).
+  Definition wstep (w : list (option st)) (x : wop) : list (option st) :=
+    match x with
+    | WBuild start order => w ++ [build start order]
+    | WOn p o => match nth_error w p with Some (Some s) => set_nth p (Some (step s o)) w | _ => w end
+    end.
+  Definition wrun (w : list (option st)) (xs : list wop) : list (option st) := fold_left wstep xs w.
+  (* the operations of a world history that are addressed to picker p *)
+  Definition wproj (p : nat) (xs : list wop) : list op :=
+    flat_map (fun x => match x with WOn q o => if Nat.eqb q p then [o] else [] | WBuild _ _ => [] end) xs.
 End Model.
